@@ -5,6 +5,7 @@ from props import common
 LEVEL = 'proof'
 MODULES = ['TlsModel.Props.C02']
 OPS = ('tls_raw', 'tls_encrypted', 'tls_plaintext')
+VERS = (0x0000, 0x0002, 0x0200, 0x0300, 0x0301, 0x0302, 0x0303, 0x0304, 0x7f12, 0x7f1c, 0xfeff, 0xfefd, 0xfefc, 0xffff)
 
 
 def framing_oracle(op, t, v, ln, payload_ok_value, p, total):
@@ -39,6 +40,20 @@ def sweep(ctx):
             for p in sorted(c for c in cuts if 0 <= c <= avail):
                 for op in (('tls_raw', 'tls_encrypted') if rng.random() < .7 else OPS):
                     cases.append((op, t, v, ln, p, buf[:p]))
+    # the cap does not depend on version or content type: every registered version x lengths around the cap (and around
+    # other plausible limits: 2^14, 2^14+1024, 2^14+2048, 2^15) x a few types, header only / header + 1 byte / complete
+    for v in VERS:
+        for ln in (16384, 16385, 16639, 16640, 16641, 17408, 17409, 18432, 18433, 32767, 32768, 65535):
+            for t in (20, 21, 22, 23, 24, 0, 255):
+                hdr = bytes([t]) + v.to_bytes(2, 'big') + ln.to_bytes(2, 'big')
+                for op in OPS:
+                    cases.append((op, t, v, ln, 5, hdr))
+                    cases.append((op, t, v, ln, 6, hdr + b'\x01'))
+                if ln <= 16640 and t in (23, 255) and (ctx.thorough or v in (0x0300, 0x0302, 0x0304, 0xfefd)):
+                    body = bytes(ln)
+                    for op in (('tls_raw', 'tls_encrypted') if t == 255 else OPS):
+                        cases.append((op, t, v, ln, 5 + ln, hdr + body))
+                        cases.append((op, t, v, ln, 5 + ln + 2, hdr + body + b'\x16\x03'))
     return cases
 
 
@@ -109,7 +124,7 @@ def run(ctx):
     common.run_differential(ctx, mutants, common.proj_framing_line)
     common.lean_failure_violation(ctx, ok)
     return ctx.finish(LEVEL,
-        rule='sweep: 256 content types x boundary lengths {0,1,2,3,255,256,16639,16640,16641,32768,65535} x prefixes around every boundary (all prefixes for short records) through the three record parsers, judged by the framing oracle of the property; plus well-formed records of every content type (exact values), strict prefixes (exact Needed), suffixes, length-field corruptions (differential under the framing projection); distinct = (op, type class, length class, prefix class, outcome) resp. (family, outcome shape)',
+        rule='sweep: 256 content types x boundary lengths {0,1,2,3,255,256,16639,16640,16641,32768,65535} x prefixes around every boundary (all prefixes for short records) through the three record parsers, plus every registered version x lengths around the cap and other plausible limits x content types (the cap depends on neither), judged by the framing oracle of the property; plus well-formed records of every content type (exact values), strict prefixes (exact Needed), suffixes, length-field corruptions (differential under the framing projection); distinct = (op, type class, length class, prefix class, outcome) resp. (family, outcome shape)',
         checker_cmd='cd /verif/lean && lake build TlsModel.Props.C02',
         assumptions=['inputs with fewer than 5 bytes: only "Incomplete" is demanded (the property fixes the count once the header is available)'])
 
